@@ -131,7 +131,8 @@ class MEngine:
         first = True
         _t0, _n = time.time(), 0
         dbg = os.environ.get("VERIF_DEBUG_INV")
-        s2 = None          # string-free copy of the path condition, built when the path's own solver gives up
+        s2 = None          # set once the path's own solver gave up: abstraction solvers are used from then on
+        solvers, absmemos, lvl_min, mlvl = [None, None], [{}, {}], 0, 0
         while remaining:
             _n += 1
             if dbg and _n % 20 == 0:
@@ -159,38 +160,48 @@ class MEngine:
                 if done:
                     break
                 if m is None:
-                    # undecided (string constraints on the path): from here on ask a solver that holds only the
-                    # string-free conjuncts of the path condition - a weaker hypothesis, so at worst clauses
-                    # are dropped needlessly
-                    s2 = z3.Solver()
-                    s2.set("timeout", 5000)
-                    s2.set("phase_selection", 5)      # random phases: diverse models cover the clause set faster
-                    absmemo = {}
-                    for a_ in it.ctx.pc:
-                        s2.add(_abstract_strings(a_, absmemo))
+                    # undecided (string constraints on the path): from here on ask solvers that hold an abstraction
+                    # of the path condition - weaker hypotheses, so at worst clauses are dropped needlessly
+                    s2 = True
                     self._unknown_checks = getattr(self, "_unknown_checks", 0) + 1
             if m is None:
-                s2.push()
-                try:
-                    s2.set("random_seed", _n)
-                    s2.add(_abstract_strings(goal, absmemo))
-                    r2 = guarded_check(s2, 5000)
-                    if r2 == z3.unsat:
-                        done = True
-                    elif r2 == z3.sat:
-                        m = s2.model()
-                finally:
-                    s2.pop()
+                for lvl in range(lvl_min, 2):
+                    # level 0: string atoms abstracted; level 1: everything outside QF Bool/Int/UF abstracted
+                    if solvers[lvl] is None:
+                        sx = z3.Solver()
+                        sx.set("timeout", 5000)
+                        sx.set("phase_selection", 5)
+                        for a_ in it.ctx.pc:
+                            sx.add(_abstract_strings(a_, absmemos[lvl], hard=(lvl == 1)))
+                        solvers[lvl] = sx
+                    sx = solvers[lvl]
+                    sx.push()
+                    try:
+                        sx.set("random_seed", _n)
+                        sx.add(_abstract_strings(goal, absmemos[lvl], hard=(lvl == 1)))
+                        r2 = guarded_check(sx, 5000)
+                        if r2 == z3.unsat:
+                            done = True
+                        elif r2 == z3.sat:
+                            m = sx.model()
+                            mlvl = lvl
+                    finally:
+                        sx.pop()
+                    if done or m is not None:
+                        break
+                    lvl_min = lvl + 1        # this level gave up: do not ask it again on this call
                 if done:
                     break
                 if m is None:
                     bad_all += [k for k, _ in remaining]     # still undecided: drop them (always sound)
+                    if os.environ.get("VERIF_DEBUG_VIOL") or dbg:
+                        print(f"   DROP-ALL at {cut}: {len(remaining)} clauses, every abstraction level undecided", flush=True)
                     break
             val = {}
             ph = cl.placeholders()
             for (lit, e) in zip(ph.keys(), [x[1] for x in lmap]):
                 if s2 is not None:
-                    e = _abstract_strings(e, absmemo)
+                    e = _abstract_strings(e, absmemos[mlvl], hard=(mlvl == 1))
                 val[lit] = z3.is_true(m.eval(e, model_completion=True))
             bad = [k for k, c in remaining if all(val[l] for l in c)]
             if not bad:
@@ -497,6 +508,12 @@ def explore_entry(eng, entry, inv, tier, t0, prefix=(), limit=None):
             print("   path", dec, "->", outcome, "| events:", [(e[0], e[1][0] if e[1] else None) + ((e[1][3], e[1][4]) if e[0] == "input" and len(e[1]) > 4 else ()) for e in ctx.trace][:40], flush=True)
         for cut, ks in (v or {}).items():
             violated_all.setdefault(cut, set()).update(ks)
+            if os.environ.get("VERIF_DEBUG_VIOL") and cut == os.environ.get("VERIF_DEBUG_VIOL"):
+                real = [k for k in ks if k in set(inv.get(cut, []))]
+                if real:
+                    print(f"   VIOL {cut} path {dec} -> {outcome}: {len(real)}: "
+                          + "; ".join(clause_text(clause_from_key(k)) for k in sorted(real)[:6]), flush=True)
+                    print("      events:", [(e[0], e[1][0] if e[1] else None) + ((e[1][3], e[1][4]) if e[0] == "input" and len(e[1]) > 4 else ()) for e in ctx.trace][:60], flush=True)
         cuts |= set(getattr(eng, "_cuts_seen", []))
         for vc in ctx.vcs:
             r = getattr(vc, "verdict", None) or solve.solve_vc(vc, timeout, use_cvc5=False)
